@@ -36,6 +36,7 @@ import Driver.FdWorld
 import Driver.Alac
 import Driver.AbsWrite
 import Driver.Small4
+import Driver.CrossType
 open Sf
 
 def lawOf (s : String) : Option G711.Law :=
@@ -117,4 +118,5 @@ def main (args : List String) : IO UInt32 := do
   | "alac" :: rest => Driver.Alac.cmd rest
   | "abs-write" :: rest => AbsWriteDriver.cmd rest
   | "small4" :: rest => Driver.Small4.cmd rest
+  | "crosstype" :: rest => CrossTypeDriver.cmd rest
   | _ => IO.eprintln "usage: sfmodel <g711|...> ..."; return 2
